@@ -631,8 +631,107 @@ func runScript(path string) {
 	}
 }
 
+// ------------------------------------------------------ 2^64 boundary cases
+
+type wrapCase struct {
+	Op      string `json:"op"`
+	Pos     string `json:"pos"`
+	Len     []int  `json:"len"`
+	Off     []int  `json:"off"`
+	Above   bool   `json:"above"`
+	Wrapped []int  `json:"wrapped"`
+}
+
+func beBytes(a []int) []byte {
+	b := make([]byte, len(a))
+	for i, x := range a {
+		b[i] = byte(x)
+	}
+	return b
+}
+
+func compileWrap(c wrapCase) []byte {
+	a := eu.NewAsm()
+	l, o := beBytes(c.Len), beBytes(c.Off)
+	switch c.Op {
+	case "calldatacopy":
+		a.Push(l).PushInt(0).Push(o).Op(eu.CALLDATACOPY)
+	case "codecopy":
+		a.Push(l).PushInt(0).Push(o).Op(eu.CODECOPY)
+	case "mcopy":
+		a.Push(l).PushInt(0).Push(o).Op(eu.MCOPY)
+	case "sha3":
+		a.Push(l).Push(o).Op(eu.SHA3, eu.POP)
+	case "log0":
+		a.Push(l).Push(o).Op(byte(eu.LOG0))
+	case "log2":
+		a.PushInt(1).PushInt(2).Push(l).Push(o).Op(byte(eu.LOG0 + 2))
+	case "create2":
+		a.PushInt(7).Push(l).Push(o).PushInt(0).Op(eu.CREATE2, eu.POP)
+	default:
+		vutil.Fatalf("unknown wrap case %q", c.Op)
+	}
+	a.Op(eu.MSIZE, eu.POP, eu.STOP)
+	return a.Bytes()
+}
+
+// runWrapCases runs the cases from index skip on; every case is announced with a line that is written
+// through to the file before it executes and closed with a second line afterwards, so that a process
+// death (which is what a wrapped cost leads to: an allocation of ~96 GiB) leaves the announcement alone.
+// The caller runs this under an address-space limit and restarts it behind the case that died.
+func runWrapCases(path, out string, skip int) {
+	raw, err := os.ReadFile(path)
+	if err != nil {
+		vutil.Fatalf("read wrap cases: %v", err)
+	}
+	var cs []wrapCase
+	if err := json.Unmarshal(raw, &cs); err != nil {
+		vutil.Fatalf("parse wrap cases: %v", err)
+	}
+	f, err := os.OpenFile(out, os.O_APPEND|os.O_CREATE|os.O_WRONLY|os.O_SYNC, 0644)
+	if err != nil {
+		vutil.Fatalf("open %s: %v", out, err)
+	}
+	emit := func(ev map[string]interface{}) {
+		b, _ := json.Marshal(ev)
+		f.Write(append(b, '\n'))
+	}
+	tr = vutil.NewTrace(os.DevNull)
+	rec = eu.NewRecorder(tr, eu.Options{Gas: true, MaxSteps: 1, HardSteps: hardSteps})
+	rec.Install()
+	for i := skip; i < len(cs); i++ {
+		c := cs[i]
+		emit(map[string]interface{}{"event": "WrapBegin", "index": i, "op": c.Op, "pos": c.Pos, "above": c.Above, "m": common.GasMagnification,
+			"p026": common.IsProposal026()})
+		st := eu.NewState()
+		self := eu.Addr(1)
+		st.AddBalance(eu.Origin, big.NewInt(1000000000))
+		st.CreateAccount(self)
+		st.SetCode(self, compileWrap(c))
+		evm := eu.NewEVM(st, height, 3000000)
+		rec.BeginRun(i + 1)
+		rec.Cancel = evm.Cancel
+		var cerr error
+		panik := ""
+		func() {
+			defer func() {
+				if p := recover(); p != nil {
+					panik = fmt.Sprintf("%v", p)
+				}
+			}()
+			_, _, _, cerr = evm.Call(vm.AccountRef(eu.Origin), self, nil, 3000000, big.NewInt(0))
+		}()
+		emit(map[string]interface{}{"event": "WrapEnd", "index": i, "op": c.Op, "failed": cerr != nil, "err": eu.ErrClass(cerr),
+			"panic": panik != "", "msize": rec.MaxMem, "steps": rec.Steps})
+	}
+	emit(map[string]interface{}{"event": "WrapDone", "cases": len(cs)})
+	f.Close()
+}
+
 func main() {
 	out := flag.String("out", "trace.ndjson", "ndjson trace")
+	wrapCases := flag.String("wrapcases", "", "cases around the 2^64 boundary of the magnified dynamic gas (json); appends to --out")
+	wrapSkip := flag.Int("skip", 0, "first wrap case to run")
 	probe := flag.Bool("probe-copier-wrap", false, "one-off probe (run it under an address-space limit): CALLDATACOPY whose Proposal026 cost wraps around 2^64")
 	statePath := flag.String("statescript", "", "TLC-generated cases of the state-access gas extension (json); runs only these")
 	scriptPath := flag.String("script", "", "TLC-generated call sequences and memory operand cases (json)")
@@ -684,6 +783,10 @@ func main() {
 		runStateScript(*statePath, st, m, common.IsProposal015())
 		st.Close()
 		fmt.Printf("c11state: runs=%d events=%d\n", stats["state_runs"], st.N)
+		return
+	}
+	if *wrapCases != "" {
+		runWrapCases(*wrapCases, *out, *wrapSkip)
 		return
 	}
 	if *probe {
